@@ -13,7 +13,7 @@ CLAIMS = {
         'histories executed on a real quiet Serf node (real wire format through NotifyMsg / MergeRemoteState, '
         'Config.EventBuffer = 1..4), each step validated by TLC against the specification.',
         'Trusts TLC, the overlay accessor (event/query buffers, minimum times, eventJoinIgnore setter), the wire encoding '
-        'mirror and the gap embedding of model times 0..23 into uint64 (23 |-> 2^64-1). The double delivery through the '
+        'mirror and the gap embedding of model times 0..23 into uint64 (23 |-> 2^64-1; its order, +1 and ring-slot laws are discharged for every MAX by Apalache on spec/EmbedLaw.tla in the thorough tier). The double delivery through the '
         'Lamport clock wrap at 2^64-1 is a recorded consequence of C19-wrap-at-max (tag witnessed_max).',
         'TLA+ spec (SerfEvents) + TLC exhaustive check of the monitors per buffer size; TLC-simulated and '
         'counterexample-derived input sequences replayed on a real quiet Serf node; TLC trace validation of every step '
@@ -364,6 +364,7 @@ def run_seq(ctx, prop, replay=None):
             sn = 1 if any(st["a"] == "restart" for st in s) else rng.choice([0, 1])
             scheds.append(((rng.choice(BS), rng.choice(BS)), sn, s))      # event and query ring sizes drawn independently
     viol, rep = judge(ctx, binary, scheds, pre, "a")
+    emb = embedding_law(ctx) if ctx.thorough() and not replay else None
     if rep.diverged:
         ctx.log("diverged at %s" % rep.diverged[:5])
     nsteps = 0
@@ -397,7 +398,26 @@ def run_seq(ctx, prop, replay=None):
                 "size, input sequence) pairs",
         "samples": [scheds[0][2][:6]] if scheds else [],
     }
+    if emb:
+        cov["unbounded_embedding_law"] = emb
     return viol, cov
+
+
+def embedding_law(ctx):
+    """Thorough tier: the time embedding the harness uses (up() in harness/cmd/events/main.go: t for t <= MAX/2, 2^64-1-(MAX-t)
+    above) and SerfEventOps' SlotIx / Pos are what they claim for EVERY MAX < 2^32, every time, ring sizes 1..8 (spec/EmbedLaw.tla,
+    Apalache; TLC cannot evaluate 2^64); the naive slot t % b must be refuted; TLC ties EmbedLaw's operators to SerfEventOps'.
+    Unexpected outcomes are spec errors (exit 2), never violations."""
+    for inv, want in (("Law", "ok"), ("NaiveSlot", "cex")):
+        got = vlib.apalache(ctx, "EmbedLaw", ["--init=Init", "--inv=" + inv, "--length=0"])
+        if got != want:
+            raise vlib.Inconclusive("EmbedLaw: apalache --inv=%s gave %s, expected %s -- spec error, no verdict" % (inv, got, want))
+    r = vlib.tlc(ctx, "MC_EmbedLaw", "INIT Init\nNEXT Next\nCONSTANT MAX = %d\nINVARIANT AgreeAll\nINVARIANT AgreeHere\n" % MAX, workers=2)
+    if r.violated:
+        raise vlib.Inconclusive("MC_EmbedLaw violated %s -- spec error, no verdict" % r.violated)
+    return {"tool": "apalache-mc 0.58.0: MAX any natural in 3..2^32-1, times 0..MAX, ring sizes 1..8; TLC ties the operators to SerfEventOps (MAX 3..40)",
+            "obligations": ["SlotIx(b,t) = E(t) % b", "0 <= E(t) < 2^64", "Pos order = order of real values", "E(MAX) = 2^64-1, E(0) = 0",
+                            "E(t+1) = E(t)+1 except across the gap", "naive slot t % b refuted"]}
 
 
 ASSUME_SEQ = ["deliveries are read from Config.EventCh after a marker pushed through the head of the event pipeline came out",
